@@ -224,7 +224,7 @@ func (w *FileWriter) generateFieldSchemaCode(field tagparser.FieldInfo, structNa
 				}
 			}
 		}
-		if !field.Required && !isPointerType(field.Type) {
+		if !field.Required {
 			b.WriteString(".Optional()")
 		}
 		return b.String(), nil
@@ -247,7 +247,7 @@ func (w *FileWriter) generateFieldSchemaCode(field tagparser.FieldInfo, structNa
 				}
 			}
 		}
-		if !field.Required && !isPointerType(field.Type) {
+		if !field.Required {
 			b.WriteString(".Optional()")
 		}
 		return b.String(), nil
